@@ -83,7 +83,7 @@ theorem unitSphereInterior_eq :
           ⟨0 + (sqrtThree : ℝ) / 2 * 1, 0 + (sqrtThree : ℝ) / 2 * 1, 0 + (sqrtThree : ℝ) / 2 * 1⟩ := by
   unfold unitSphereInterior clipInside
   simp only [Zone.infinite, BBox.infinite, BBox.shrinkLo, BBox.shrinkHi, Vec3.set, Vec3.get,
-    Axis.toNat, Ext.max, Ext.min, Ext.lt, Vec3.ax, BBox.ofPoints, if_true]
+    Axis.toNat, Ext.fmax, Ext.fmin, Ext.max, Ext.min, Ext.lt, Vec3.ax, BBox.ofPoints, if_true]
   num_simp
   simp only [Real.sqrt_one]
 
